@@ -1003,7 +1003,11 @@ fn scenario_back(sc: &Value, sh: &Shared, listener: TcpListener, prefix: String)
                     let mut drv = Ep::new(conn.s, true, sh.recv_conn, dcfg, sc["label"].as_str().unwrap_or(""), sc["id"].as_u64().unwrap_or(0));
                     drv.c.send_raw(PREFACE);
                     let mut dops = vec![json!({"op": "settings", "initWin": 1 << 24}), json!({"op": "wu", "slot": 0, "n": 1 << 28})];
-                    for st in &streams { dops.push(json!({"op": "open", "down": st["down"], "up": st["up"]})); }
+                    if let Some(custom) = sc["driver"]["ops"].as_array() {
+                        dops.extend(custom.iter().cloned());
+                    } else {
+                        for st in &streams { dops.push(json!({"op": "open", "down": st["down"], "up": st["up"]})); }
+                    }
                     dops.push(json!({"op": "finish", "mode": "eager"}));
                     let w = run_ops(&mut drv, &dops, &prefix, overall, None, fd);
                     if w != Wait::Quiet { notes.push(format!("driver: {:?}", w)); }
@@ -1152,6 +1156,14 @@ fn fixed_scenarios(mut id: u64, thorough: bool) -> Vec<Value> {
                {"op": "await", "bytes": 100_000, "streams": 1}, {"op": "pause", "ms": 400}, {"op": "ping"}, {"op": "settings", "maxFrame": 16_384},
                {"op": "pause", "ms": 300}, {"op": "ping"}, {"op": "settings", "initWin": 1 << 20}, {"op": "pause", "ms": 200},
                {"op": "finish", "mode": "eager"}]), &mut v);
+    // a warm backend connection (its limit of two streams is known) and four more concurrent requests of the session
+    v.push(json!({"id": 19_999, "kind": "back", "front": "h2", "listener": "tls", "label": "fixed:back:maxstreams2-warm",
+                  "streams": [{"down": 10, "up": 10}, {"down": 10, "up": 50_000}, {"down": 10, "up": 50_000}, {"down": 10, "up": 50_000}, {"down": 10, "up": 50_000}],
+                  "peer": {"ops": [{"op": "settings", "initWin": 1000, "maxStreams": 2}, {"op": "finish", "mode": "burst", "k": 5_000}], "pad": 0, "up_chunk": 16_384},
+                  "driver": {"up_chunk": 16_384, "ops": [{"op": "open", "down": 10, "up": 10}, {"op": "sync"},
+                                                         {"op": "open", "down": 10, "up": 50_000}, {"op": "open", "down": 10, "up": 50_000},
+                                                         {"op": "open", "down": 10, "up": 50_000}, {"op": "open", "down": 10, "up": 50_000}]},
+                  "deadline_ms": 120_000}));
     // open finding LoopBudget: thousands of small frames back to back (legal) use up Mux::ready's loop budget
     add("fixed:front:unpaced-wu-burst", "front", "h2", "tls", json!([{"down": 7_000, "up": 0}]),
         json!([{"op": "settings", "initWin": 0}, {"op": "sync"}, {"op": "open", "down": 7_000, "up": 0}, {"op": "sync"},
